@@ -272,3 +272,69 @@ Theorem C07_source_constructed_mse_distance : forall (orc : oracle) (sigmoid : b
 Proof. exact C07Source_ConstructedMse.constructed_mse_distance_uses_its_flag. Qed.
 Print Assumptions C07_source_constructed_mse_distance.
 
+
+(* ---- calculate_distance_matrix.get_args and main() as a whole command (gap review G7.2) ----
+   get_args() was the one function on this property's path that was not re-translated.  Now: parser.parse_args() is the
+   primitive yielding the raw namespace (Cli.cd_ns: the plain results main() reads, --distance-metric, the KEY=VALUE dict
+   of --distance-metric-param or None); the statements after it - class lookup among DistanceMetric subclasses, the
+   required-argument annotations of what was found, the cast of the KEY=VALUE items, the two attribute stores - come from
+   the translation (Generated/SrcCliArgsDist.v), and main() is translated once more with get_args() = that translation
+   and args.metric_cls( **args.metric_params) = `construct` on the two attributes get_args() stored. *)
+From Batchie Require Generated.SrcCliArgs Generated.SrcCliArgsDist Proofs.C18SourceIntrospect Proofs.C07SourceArgs.
+Theorem C07_model_is_source_cli_args_get_args :
+  forall (Cls F O : Type) (I : Cli.introspect Cls) (P : Cli.pyprims F O) (raw : Cli.cd_ns Cls F O),
+  SrcCliArgsDist.src_cd_get_args Cls F O I P raw = Cli.cd_get_args I P raw.
+Proof. exact C07SourceArgs.src_cd_get_args_is_model. Qed.
+Print Assumptions C07_model_is_source_cli_args_get_args.
+
+Theorem C07_model_is_source_cli_args_calculate_distance_matrix :
+  forall (Cls F O : Type) (I : Cli.introspect Cls) (P : Cli.pyprims F O) (Scr Th Me Dm : Type)
+         (construct : Cls -> list (Cli.str * Cli.pval F O) -> result Me) (L : Cli.cd_lib Scr Th Me Dm) (raw : Cli.cd_ns Cls F O),
+  SrcCliArgsDist.src_cli_calculate_distance_matrix_cmd Cls F O I P Scr Th Me Dm construct L raw
+  = Cli.cli_calculate_distance_matrix_cmd I P construct L raw.
+Proof. exact C07SourceArgs.src_cli_calculate_distance_matrix_cmd_is_model. Qed.
+Print Assumptions C07_model_is_source_cli_args_calculate_distance_matrix.
+
+(* ... with the introspection record made of the TRANSLATED get_class / get_required_init_args_with_annotations (Props/C18.v) *)
+Theorem C07_model_is_source_cli_args_calculate_distance_matrix_world :
+  forall (Mod Obj F O : Type) (W : Cli.pyworld Mod Obj) (P : Cli.pyprims F O) (Scr Th Me Dm : Type)
+         (construct : Obj -> list (Cli.str * Cli.pval F O) -> result Me) (L : Cli.cd_lib Scr Th Me Dm) (raw : Cli.cd_ns Obj F O),
+  SrcCliArgsDist.src_cli_calculate_distance_matrix_cmd Obj F O (C18SourceIntrospect.introspect_src W) P Scr Th Me Dm construct L raw
+  = Cli.cli_calculate_distance_matrix_cmd (Cli.introspect_of W) P construct L raw.
+Proof. exact C07SourceArgs.src_cli_calculate_distance_matrix_cmd_world. Qed.
+Print Assumptions C07_model_is_source_cli_args_calculate_distance_matrix_world.
+
+(* the metric every entry is computed with IS the configured one: whenever the translated command writes its file, the class
+   named by --distance-metric was found, the --distance-metric-param items were cast by its required-argument annotations
+   (ps = [] exactly when the option is absent), `construct` on that class and EXACTLY those parameters gave the metric m, and
+   the file holds what the library computes with m.  A get_args() that drops or ignores the option does not satisfy this. *)
+Theorem C07_cli_metric_is_configured :
+  forall (Cls F O : Type) (I : Cli.introspect Cls) (P : Cli.pyprims F O) (Scr Th Me Dm : Type)
+         (construct : Cls -> list (Cli.str * Cli.pval F O) -> result Me) (L : Cli.cd_lib Scr Th Me Dm) (raw : Cli.cd_ns Cls F O) out,
+  SrcCliArgsDist.src_cli_calculate_distance_matrix_cmd Cls F O I P Scr Th Me Dm construct L raw = Ok out ->
+  exists c req ps m,
+    Cli.i_get_class I Cli.s_batchie (Cli.cd_distance_metric raw) Cli.BDistanceMetric = Ok (Some c)
+    /\ Cli.i_required I (Some c) = Ok req
+    /\ Cli.cast_params P (Cli.cd_distance_metric_param raw) req = Ok ps
+    /\ construct c ps = Ok m
+    /\ Cli.cli_calculate_distance_matrix (Cli.cd_with_mk L (Ok m)) (Cli.cd_plain raw) = Ok out.
+Proof. exact C07SourceArgs.cmd_metric_is_constructed_from_params. Qed.
+Print Assumptions C07_cli_metric_is_configured.
+
+(* OBSERVATION on the unchanged tree (outside the property's quantifier, recorded because the review asked): the parameter
+   types are looked up only among the __init__ arguments WITHOUT a default, so a KEY naming a defaulted argument is a
+   KeyError (Err 25) - and the only metric the package ships, MSEDistance(sigmoid: bool = True), has no other argument:
+   `--distance-metric-param sigmoid=false` cannot be given.  Stated of the translated source, for every world in which the
+   signature gives the key's parameter a default. *)
+Theorem C07_cli_defaulted_metric_param_is_key_error :
+  forall (Mod Obj F O : Type) (W : Cli.pyworld Mod Obj) (P : Cli.pyprims F O) (Scr Th Me Dm : Type)
+         (construct : Obj -> list (Cli.str * Cli.pval F O) -> result Me) (L : Cli.cd_lib Scr Th Me Dm) (raw : Cli.cd_ns Obj F O)
+         (o : Obj) sig k v rest,
+  Cli.get_class W Cli.s_batchie (Cli.cd_distance_metric raw) Cli.BDistanceMetric = Ok (Some o) ->
+  Cli.w_isclass W o = true -> Cli.w_signature W o = Ok sig ->
+  (forall sp, In (k, sp) sig -> Cli.sp_no_default sp = false) ->
+  Cli.cd_distance_metric_param raw = Some ((k, v) :: rest) ->
+  SrcCliArgsDist.src_cli_calculate_distance_matrix_cmd Obj F O (C18SourceIntrospect.introspect_src W) P Scr Th Me Dm construct L raw
+  = Err 25%Z.
+Proof. exact C07SourceArgs.cmd_defaulted_param_is_key_error_world. Qed.
+Print Assumptions C07_cli_defaulted_metric_param_is_key_error.
